@@ -370,7 +370,7 @@ fn absent(ctx: &mut Ctx) {
 fn explore(ctx: &mut Ctx) {
     vcore::model::self_check().expect("reference model self-check failed");
     let thorough = ctx.tier.is_thorough();
-    let n = ctx.tier.pick(7, 16);
+    let n = ctx.tier.pick(9, 16);
     let mut all: Vec<BitsDesc> = Vec::new();
     for len in 0..=n {
         for word in 0..(1u64 << len) {
@@ -395,7 +395,7 @@ fn explore(ctx: &mut Ctx) {
         }
     }
     // Sparse vectors from support-free files at every admissible low width (small) and a few widths (large).
-    let sn = ctx.tier.pick(6, 14);
+    let sn = ctx.tier.pick(8, 14);
     for len in 0..=sn {
         for word in 0..(1u64 << len) {
             let bits = BitsDesc::Word { len, word };
